@@ -42,6 +42,18 @@ def replay(pid, path):
         print("no replay mode for", pid)
         return 2
     build_harness()
+    if mode == "loader-trace":
+        tmp = os.path.join(WORK, "replay-%d.ndjson" % os.getpid())
+        with open(tmp, "w") as f:
+            f.write(json.dumps(rec) + "\n")
+        bad = validate_loader_trace(tmp, os.path.join(WORK, "replay-%d-trace.ndjson" % os.getpid()), stride=1)
+        os.remove(tmp)
+        if bad:
+            print(json.dumps(bad[0][1], indent=1, ensure_ascii=False))
+            print("VIOLATION property=%s replay=%s" % (pid, path))
+            return 1
+        print("trace accepted")
+        return 0
     tmp = os.path.join(WORK, "replay-%d.ndjson" % os.getpid())
     with open(tmp, "w") as f:
         f.write(json.dumps(rec) + "\n")
@@ -187,6 +199,8 @@ def ledger_traces(run, runs=None):
             run.report("panic", {"input": r["input"], "_mode": "ledger-trace"}, {"panic": r["panic"]},
                        "panic: okane panicked while processing a random ledger: %s" % r["panic"][:300])
     events = [l for l in open(tr)]
+    if len(events) < 5 * len(inputs):
+        raise ToolError("trace recording is vacuous: %d events for %d runs" % (len(events), len(inputs)))
     offset = 0           # events already dealt with
     validated_runs = 0
     total_states = 0
@@ -235,6 +249,63 @@ def ledger_traces(run, runs=None):
 
 
 MODES.update({"C01": "ledger", "C02": "ledger", "C03": "ledger"})
+
+
+def validate_loader_trace(nd, tr, stride=1, limit=None):
+    """Binding B for Loader.tla: records the loader's own events on the file trees of `nd` (every `stride`-th behaviour, on both
+    file systems) and validates them against spec/LoaderTrace.tla.  Returns ([(record index, detail)], stats)."""
+    from vlib import run_tlc, parse_stats
+    cmd = [VH, "loader-trace", "--in", nd, "--out", tr, "--stride", str(stride)] + (["--limit", str(limit)] if limit else [])
+    p = subprocess.run(cmd, stdout=subprocess.PIPE, stderr=subprocess.PIPE, text=True)
+    if p.returncode != 0:
+        sys.stderr.write(p.stderr[-2000:])
+        raise ToolError("loader trace recording failed")
+    info = json.loads(p.stdout.strip().splitlines()[-1])
+    events = [l for l in open(tr)]
+    starts = [i for i, l in enumerate(events) if l.startswith('{"ev":"fs"')]      # 0-based indices of the runs' first events
+    bad = []
+    offset = 0
+    states = 0
+    rounds = 0
+    while offset < len(events) and rounds < 6:
+        rounds += 1
+        part = tr + ".part"
+        with open(part, "w") as f:
+            f.writelines(events[offset:])
+        rc, out, secs = run_tlc("MCLoaderTrace.tla", "LoaderTrace.cfg", workers=1, timeout=1200, env_extra={"TRACE": part},
+                                java_extra="-Xss1g -Xmx6g -Dtlc2.tool.queue.IStateQueue=StateDeque")
+        os.remove(part)
+        st = parse_stats(out) or {"distinct": 0, "generated": 0}
+        states += st["distinct"]
+        m = re.search(r'TRACE-REJECTED at event",\s*(\d+)', out)
+        if "No error has been found" in out and not m:
+            break
+        if not m:
+            sys.stderr.write(out[-3000:])
+            raise ToolError("loader trace validation failed without a rejected event (an invariant of Loader.tla is violated on a recorded run, or TLC failed)")
+        k = offset + int(m.group(1)) - 1                       # 0-based index of the first unmatched event
+        first = max(x for x in starts if x <= k)
+        nxt = min([x for x in starts if x > k] + [len(events)])
+        head = json.loads(events[first])
+        bad.append((head["record"], {"first_unmatched_event": json.loads(events[k]), "file_system": head["on"],
+                                     "events_of_run": [json.loads(x) for x in events[first + 1:nxt]][:120]}))
+        offset = nxt
+    return bad, {"runs": info["runs"] - len(bad), "events": len(events), "states": states}
+
+
+def loader_traces(run, name, nd, stride):
+    recs = read_records(nd)
+    bad, st = validate_loader_trace(nd, os.path.join(WORK, "%s-%s-ltrace.ndjson" % (run.pid, name)), stride=stride)
+    for idx, detail in bad:
+        rec = dict(recs[idx]); rec["_mode"] = "loader-trace"
+        ev = detail["first_unmatched_event"]
+        run.report("trace_" + ev.get("ev", "?"), rec, detail,
+                   "loader trace rejected (%s file system): event %s is not a step of Loader.tla from the state reached" % (detail["file_system"], json.dumps(ev)[:300]))
+    run.add_model({"module": "MCLoaderTrace.tla", "cfg": "LoaderTrace.cfg", "scenario": name, "states": st["states"], "transitions": st["states"],
+                   "seconds": 0, "traces": st["runs"], "events": st["events"]})
+    run.traces += st["runs"]
+    run.extra["loader_trace_runs"] = run.extra.get("loader_trace_runs", 0) + st["runs"]
+    run.extra["loader_trace_events"] = run.extra.get("loader_trace_events", 0) + st["events"]
 
 
 @check("C04")
@@ -314,6 +385,8 @@ def c11(run):
         st["scenario"] = sc
         run.add_model(st)
         recs, res = feed(run, "loader", nd, key=lambda r: json.dumps([r["fs"], r["expect"]], sort_keys=True))
+        # binding B: the loader's own events on a sample of these trees, validated step by step against LoaderTrace.tla
+        loader_traces(run, sc, nd, {"glob": 2, "split": 2, "arb": 25, "arbT": 60}[sc] if quick else {"glob": 1, "split": 1, "arb": 4, "arbT": 12}[sc])
         if sc == "glob":
             # vacuity guard: every glob pattern of the scenario must have matched something in some behaviour
             hits = {}
@@ -614,7 +687,7 @@ def c06(run):
     hard = lambda rec, r: any(c in ("parse_err", "process_err") for c in (r.get("classes") or []))
     feed(run, "total", nd, key=lambda r: r["text"], nontrivial=hard)
     if run.tier == "thorough":
-        nd, n, st = tlc_gen("MCTotality.tla", "Totality_walk.cfg", "C06-walk", simulate={"num": 15000, "depth": 13}, seed=run.seed, timeout=2400)
+        nd, n, st = tlc_gen("MCTotality.tla", "Totality_walk.cfg", "C06-walk", simulate={"num": 8000, "depth": 13}, seed=run.seed, timeout=2400)
         st["scenario"] = "mutation walks (simulation)"
         run.add_model(st)
         feed(run, "total", nd, key=lambda r: r["text"], nontrivial=hard)
@@ -624,7 +697,7 @@ def c06(run):
     run.add_model(st)
     feed(run, "total", nd, key=lambda r: "pricedb:" + r["text"], nontrivial=hard)
     if run.tier == "thorough":
-        nd, n, st = tlc_gen("MCTotality.tla", "Totality_priceT.cfg", "C06-pricewalk", simulate={"num": 6000, "depth": 9}, seed=run.seed, timeout=2400)
+        nd, n, st = tlc_gen("MCTotality.tla", "Totality_priceT.cfg", "C06-pricewalk", simulate={"num": 3000, "depth": 9}, seed=run.seed, timeout=2400)
         st["scenario"] = "price database, mutation walks (simulation)"
         run.add_model(st)
         feed(run, "total", nd, key=lambda r: "pricedb:" + r["text"], nontrivial=hard)
@@ -634,6 +707,7 @@ def c06(run):
     st["scenario"] = "include graphs (failing ones)"
     run.add_model(st)
     feed(run, "loader", nd, keep=lambda r: r["expect"]["status"] != "ok", key=lambda r: json.dumps(r["fs"], sort_keys=True))
+    loader_traces(run, "failing", nd, 10 if run.tier == "quick" else 2)
     # arithmetic hazards: only crashes count here (verdicts belong to C01)
     for sc in ["CostLot", "Plain"]:
         nd, n, st = tlc_gen("MCLedger.tla", "Ledger_%s.cfg" % sc, "C06-%s" % sc, workers=8, timeout=1700)
